@@ -32,6 +32,11 @@ type sleeperRec struct {
 type parkPoint struct {
 	parked chan struct{}
 	resume chan struct{}
+	// late: the reading returned is the clock when the caller is RESUMED (the
+	// harness may have moved it while the caller was stopped), not the clock
+	// when it was stopped. Used for look-ups stopped between their map read
+	// and their clock reading.
+	late bool
 }
 
 func (f *fclock) Now() time.Time {
@@ -43,6 +48,11 @@ func (f *fclock) Now() time.Time {
 	if p != nil {
 		p.parked <- struct{}{}
 		<-p.resume
+		if p.late {
+			f.mu.Lock()
+			t = f.now
+			f.mu.Unlock()
+		}
 	}
 	return time.Unix(0, t)
 }
@@ -75,8 +85,10 @@ func (f *fclock) set(t int64) {
 	f.mu.Unlock()
 }
 
-func (f *fclock) arm() *parkPoint {
-	p := &parkPoint{parked: make(chan struct{}), resume: make(chan struct{})}
+func (f *fclock) arm() *parkPoint { return f.armWith(false) }
+
+func (f *fclock) armWith(late bool) *parkPoint {
+	p := &parkPoint{parked: make(chan struct{}), resume: make(chan struct{}), late: late}
 	f.mu.Lock()
 	f.armed = p
 	f.mu.Unlock()
@@ -127,6 +139,8 @@ var syncStats = map[string]int{
 	"sync.extra_sleepers_registered":      0,
 	"sync.goroutines_without_clock_sleep": 0,
 	"sync.goroutines_left_at_end_of_case": 0,
+	"sync.calls_blocked":                  0,
+	"sync.snapshots_blocked":              0,
 }
 
 func newWorld(t0 int64) *world {
